@@ -450,7 +450,8 @@ PLANS.update({"C12": c12, "C09": c09, "C04": c04})
 def simple_cfg(name, constants, invariants):
     path = os.path.join(common.rundir(), name + ".cfg")
     with open(path, "w") as f:
-        f.write("CONSTANTS\n")
+        if constants:
+            f.write("CONSTANTS\n")
         for k, v in constants.items():
             f.write("  %s = %s\n" % (k, v))
         f.write("INIT Init\nNEXT Next\nINVARIANTS " + " ".join(invariants) + "\nCHECK_DEADLOCK FALSE\n")
@@ -755,3 +756,350 @@ def c05(tier):
 
 
 PLANS.update({"C05": c05})
+
+
+# ------------------------------------------------------------------------------------------
+import json as _json
+
+
+def c13(tier):
+    run = Run("C13", tier)
+    cat = _json.load(open(os.path.join(common.ROOT, "verifpy", "catalogue.json"), encoding="utf-8"))
+    run.rule = ("model: for all 22 catalogue entries x offsets 0..3 x 0..3 the circle given by the entry's documented "
+                "parameters satisfies the independent CircleOracle (radius from the drawing's width, horizontal "
+                "extent, every character within 20 lattice units of the circle) - TLC; each behaviour is replayed; "
+                "code: 22 drawings x %s placements, alone and with unrelated content below; TLC checks the input is "
+                "the placed drawing and CircleOracle on the single circle element. every case is non-trivial"
+                % ("a stratified sample of offsets in 0..60 x 0..40" if tier == "quick" else "all offsets 0..60 x 0..40"))
+    r = common.rng("C13")
+    cfg = simple_cfg("MC_C13", {"MaxK": 3, "MaxN": 3}, ["ModelC13", "EdgeFlagMatchesShape", "Emit"])
+    res = run.model("MC_Circle", cfg)
+    beh = common.tla_json_strings(res["lines"], "REPLAY")
+    texts = [rows_text(b["rows"]) for b in beh]
+    obs = observe.observe([{"input": t} for t in texts], tag="C13A")
+    for b, t, o in zip(beh, texts, obs):
+        run.replayed += 1
+        real = [(e["k"],) + tuple(v // 1000 for v in e["n"]) for e in o["doc"].get("elems", [])]
+        if real != [tuple(b["out"][0])]:
+            run.drift += 1
+            run.drift_samples.append({"input": t, "model": b["out"], "real": real})
+        run.add_event({"props": ["C13"], "rows": o["rows"], "doc": o["doc"], "circ": b["circ"]}, {"input": t, "circ": b["circ"]})
+    run.validate()
+    places = []
+    if tier == "quick":
+        for idx in range(22):
+            for _ in range(40):
+                places.append((idx, r.randint(0, 60), r.randint(0, 40)))
+    else:
+        for idx in range(22):
+            for k in range(0, 61):
+                for nn in range(0, 41):
+                    places.append((idx, k, nn))
+    cases = []
+    for j, (idx, k, nn) in enumerate(places):
+        body = "\n" * nn + "\n".join(" " * k + x for x in cat[idx])
+        extra = 1 if j % 3 == 0 else 0
+        if extra:
+            body = body + "\n\n" + r.choice(["+--+\n|  |\n+--+", "hello -->", "  /\n /", "*---o"])
+        cases.append((body, {"idx": idx + 1, "k": k, "n": nn, "extra": extra}))
+    obs = observe.observe([{"input": t} for t, _ in cases], tag="C13B")
+    for (t, circ), o in zip(cases, obs):
+        run.add_event({"props": ["C13"], "rows": o["rows"], "doc": o["doc"], "circ": circ}, {"input": t, "circ": circ})
+    run.samples.append({"input": cases[7][0], "circ": cases[7][1]})
+    run.validate(shard=1500)
+    run.assumptions = std_assumptions() + ["'about one cell' is read as 20 lattice units (1 1/4 cell heights)",
+                                           "the 22 drawings are frozen in spec/Catalogue.tla from the pinned commit"]
+    return run.finish()
+
+
+PLANS.update({"C13": c13})
+
+
+# ------------------------------------------------------------------------------------------
+ARROWS = {
+    "r": [(">", "-"), ("▶", "─"), ("►", "─"), ("▸", "─")],
+    "l": [("<", "-"), ("◀", "─"), ("◄", "─"), ("◂", "─")],
+    "u": [("^", "|"), ("▲", "│"), ("▴", "│")],
+    "d": [("v", "|"), ("V", "|"), ("▼", "│"), ("▾", "│")],
+    "dr": [("v", "\\"), ("V", "\\")],
+    "dl": [("v", "/"), ("V", "/")],
+    "ul": [("^", "\\")],
+    "ur": [("^", "/")],
+}
+
+
+def arrow_text(d, L, k, n, g, body):
+    pre = [""] * n
+    sp = " "
+    if d == "r":
+        rows = [sp * k + body * L + g]
+    elif d == "l":
+        rows = [sp * k + g + body * L]
+    elif d == "u":
+        rows = [sp * k + g] + [sp * k + body for _ in range(L)]
+    elif d == "d":
+        rows = [sp * k + body for _ in range(L)] + [sp * k + g]
+    elif d == "dr":
+        rows = [sp * (k + i) + body for i in range(L)] + [sp * (k + L) + g]
+    elif d == "dl":
+        rows = [sp * (k + L - i) + body for i in range(L)] + [sp * k + g]
+    elif d == "ul":
+        rows = [sp * k + g] + [sp * (k + i + 1) + body for i in range(L)]
+    else:
+        rows = [sp * (k + L) + g] + [sp * (k + L - i - 1) + body for i in range(L)]
+    return "\n".join(pre + rows)
+
+
+def c14(tier):
+    run = Run("C14", tier)
+    maxlen = 12 if tier == "quick" else 40
+    run.rule = ("arrow family: 8 directions x glyph variants (> < ^ v V and triangle glyphs) x lengths 1..%d x seeded "
+                "offsets: ArrowOracle (one filled 3-vertex polygon, tip on the line's axis beyond its end and inside "
+                "the glyph's cell, base straddling the axis); bullet family: * o O at the start, end or middle of a "
+                "run of dashes: BulletOracle (marker line of the documented kind ending at the bullet cell's centre, "
+                "bullet not shown as text); corner family: rounded outlines (. ' and , ` styles) of sizes up to %s with "
+                "a stub: CornerOracle (four quarter arcs, endpoints are line ends, centre on the inner side). TLC "
+                "checks the input is the claimed drawing and the oracle on the recorded document; the arrow/bullet/"
+                "corner geometry is also an invariant of the glyph model for the directions it covers. "
+                "every case is non-trivial" % (maxlen, "12x6" if tier == "quick" else "30x15"))
+    r = common.rng("C14")
+    cases = []
+    lens = list(range(1, maxlen + 1))
+    for d, gl in ARROWS.items():
+        for (g, body) in gl:
+            for L in lens:
+                if tier == "quick" and L > 6 and L % 3:
+                    continue
+                k, n = r.randint(0, 5), r.randint(0, 3)
+                t = arrow_text(d, L, k, n, g, body)
+                cases.append((t, "C14arrow", "arrow", {"dir": d, "len": L, "k": k, "n": n, "g": ord(g), "body": ord(body)}))
+    for ch in "*oO":
+        for pos in ("start", "end", "mid"):
+            for L in lens:
+                if tier == "quick" and L > 6 and L % 3:
+                    continue
+                k, n = r.randint(0, 5), r.randint(0, 3)
+                row = " " * k + {"start": ch + "-" * L, "end": "-" * L + ch, "mid": "-" * L + ch + "-" * L}[pos]
+                cases.append(("\n" * n + row, "C14bullet", "bullet", {"ch": ord(ch), "pos": pos, "len": L, "k": k, "n": n}))
+    ws = range(1, 13) if tier == "quick" else range(1, 31)
+    hs = range(1, 7) if tier == "quick" else range(1, 16)
+    for w in ws:
+        for h in hs:
+            if tier == "quick" and (w + h) % 2:
+                continue
+            for (tl, tr, bl, br) in [(".", ".", "'", "'"), (",", ".", "`", "'")]:
+                k, n = r.randint(0, 4), r.randint(0, 2)
+                rows = [" " * k + tl + "-" * w + tr]
+                for i in range(h):
+                    rows.append(" " * k + "|" + " " * w + "|" + ("--" if i == 0 else ""))
+                rows.append(" " * k + bl + "-" * w + br)
+                cases.append(("\n" * n + "\n".join(rows), "C14corner", "outline",
+                              {"k": k, "n": n, "w": w, "h": h, "tl": ord(tl), "tr": ord(tr), "bl": ord(bl), "br": ord(br)}))
+    obs = observe.observe([{"input": c[0]} for c in cases], tag="C14A")
+    for (t, pred, key, info), o in zip(cases, obs):
+        run.add_event({"props": [pred], "rows": o["rows"], "doc": o["doc"], key: info}, {"input": t, key: info})
+    run.samples += [{"input": cases[3][0], "arrow": cases[3][3]}, {"input": cases[-1][0], "outline": cases[-1][3]}]
+    run.validate(shard=1500)
+    run.assumptions = std_assumptions()
+    return run.finish()
+
+
+PLANS.update({"C14": c14})
+
+
+# ------------------------------------------------------------------------------------------
+import hashlib as _hashlib
+
+
+def rand_ident(r, maxlen=8):
+    first = r.choice("abcdefghijklmnpqrstuwyz_ABCDEFG")
+    return first + "".join(r.choice("abcdefghijklmnpqrstuwyz0123456789_") for _ in range(r.randint(0, maxlen - 1)))
+
+
+def rand_decl(r):
+    alpha = "abcfilstroke:;#0123456789 -.,()%\"'\n\t<>&!/*@"
+    return "".join(r.choice(alpha) for _ in range(r.randint(0, 30)))
+
+
+def clsmap_of(doc):
+    m = {}
+    for e in doc.get("elems", []):
+        for c in e["cls"]:
+            m[c] = [ord(x) for x in c]
+    return m
+
+
+def nested_boxes(r, depth):
+    """nested sharp/rounded boxes with tags; returns (text, tags)"""
+    # innermost content
+    tags = []
+    inner_w = r.randint(8, 14)
+    names = [rand_tagname(r) for _ in range(r.randint(1, 2))]
+    tagtxt = "{" + ",".join(names) + "}"
+    inner_w = max(inner_w, len(tagtxt) + 2)
+    label = r.choice(["", "abc", "Hello", "x1"])
+    lines = [(" " + tagtxt).ljust(inner_w)]
+    tag_pos = [(0, 1, names)]          # (row, col) relative to the content block
+    if label:
+        lines.append((" " + label).ljust(inner_w))
+    block = lines
+    for d in range(depth):
+        style = r.choice(["sharp", "round", "round2", "uni"])
+        tl, tr, bl, br, hz, vt = {"sharp": "++++-|", "round": "..''-|", "round2": ",.`'-|", "uni": "┌┐└┘─│"}[style]
+        w = len(block[0])
+        extra = []
+        if d > 0:
+            nm = [rand_tagname(r)]
+            t2 = "{" + nm[0] + "}"
+            if len(t2) + 2 <= w:
+                extra = [(" " + t2).ljust(w)]
+        new = [tl + hz * w + tr]
+        for ln in extra + block:
+            new.append(vt + ln + vt)
+        new.append(bl + hz * w + br)
+        shift_r = 1 + len(extra)
+        tag_pos = [(rr + shift_r, cc + 1, nn) for (rr, cc, nn) in tag_pos]
+        if extra:
+            tag_pos.append((1, 2, nm))
+        # pad around so that the next level has a margin
+        block = [" " + x + " " for x in new]
+        tag_pos = [(rr, cc + 1, nn) for (rr, cc, nn) in tag_pos]
+    return block, tag_pos
+
+
+def rand_tagname(r):
+    return r.choice("abcdefghijklmnpqrstuwyz") + "".join(r.choice("abcdefghijklmnpqrstuwyz0123456789") for _ in range(r.randint(0, 4)))
+
+
+def c16(tier):
+    run = Run("C16", tier)
+    n = 400 if tier == "quick" else 30000
+    run.rule = ("legend family: 0..6 entries (random identifiers x declaration strings of any characters except braces, "
+                "incl. newlines, quotes, markup characters x three spacings around '=') after a random drawing, header "
+                "and trailing-blank variants: C16legend (TLC checks the input is the claimed legend, nothing below the "
+                "header is drawn, and the style text ends with the rules '.svgbob .name{ decl }' in order); tag family: "
+                "boxes (sharp, rounded, box-drawing) nested to depth 3, catalogue circles, tags with 1-2 names inside "
+                "each level, next to other text, and outside all shapes: C16tags (the innermost enclosing rect/circle "
+                "carries the names, the tag is not rendered, outside tags stay text, no name leaks to another "
+                "element, other text unaffected). non-trivial = at least one entry / one tag")
+    r = common.rng("C16")
+    cfg = simple_cfg("MC_C16", {"MaxW": 6, "MaxLen": 7}, ["FitSameAtEveryScale", "DeepestFirst"])
+    run.model("MC_Enclose", cfg)
+    cases = []
+    for i in range(n):
+        art = r.choice(["", "ab", gen.box(r.randint(1, 6), 1), gen.random_grid(r, 6, 2, "-|+ab ", 0.5)])
+        art = "\n".join(x.rstrip() for x in art.split("\n"))
+        ents = []
+        for _ in range(r.randint(0, 6)):
+            ents.append((rand_ident(r), rand_decl(r), r.randint(0, 2)))
+        header = r.choice(["# Legend:", "# Legend:  ", "#Legend:", "# Legend:\t"]) if False else r.choice(["# Legend:", "# Legend:  ", "# Legend:\t"])
+        body = []
+        for (nm, dc, eq) in ents:
+            body.append({0: "%s = {%s}", 1: "%s={%s}", 2: "%s  =\t {%s}"}[eq] % (nm, dc))
+        t = art + "\n" + header + "\n" + "\n".join(body) + r.choice(["", "\n", "\n\n  \n"])
+        cases.append((t, "C16legend", "legend",
+                      {"entries": [[[ord(c) for c in nm], [ord(c) for c in dc], eq] for (nm, dc, eq) in ents]}))
+    cat = _json.load(open(os.path.join(common.ROOT, "verifpy", "catalogue.json"), encoding="utf-8"))
+    for i in range(n):
+        kind = i % 4
+        if kind < 3:
+            block, tag_pos = nested_boxes(r, r.randint(1, 3))
+            rows = list(block)
+            tags = [{"r": rr, "c": cc, "names": [[ord(c) for c in nm] for nm in nn], "inside": 1} for (rr, cc, nn) in tag_pos]
+            # a tag outside all shapes, on its own row below, separated by a blank row
+            if r.random() < 0.6:
+                nm = rand_tagname(r)
+                rows += ["", "  {" + nm + "}"]
+                tags.append({"r": len(rows) - 1, "c": 2, "names": [[ord(c) for c in nm]], "inside": 0})
+            k, nn_ = r.randint(0, 3), r.randint(0, 2)
+            rows = [""] * nn_ + [" " * k + x for x in rows]
+            for tg in tags:
+                tg["r"] += nn_
+                tg["c"] += k
+            cases.append(("\n".join(x.rstrip() for x in rows), "C16tags", "tags", tags))
+        else:
+            idx = r.randint(7, 21)          # circles wide enough to hold a tag
+            D = [list(x) for x in cat[idx]]
+            nm = rand_tagname(r)[:3]
+            tagtxt = "{" + nm + "}"
+            mid = len(D) // 2
+            w = max(len(x) for x in D)
+            c0 = (w - len(tagtxt)) // 2
+            row = D[mid] + [" "] * (w - len(D[mid]))
+            if all(ch == " " for ch in row[c0:c0 + len(tagtxt)]) and c0 > 1:
+                row[c0:c0 + len(tagtxt)] = list(tagtxt)
+                D[mid] = row
+                cases.append(("\n".join("".join(x).rstrip() for x in D), "C16tags", "tags",
+                              [{"r": mid, "c": c0, "names": [[ord(c) for c in nm]], "inside": 1}]))
+    obs = observe.observe([{"input": c[0], "want_style": True} for c in cases], tag="C16A")
+    for (t, pred, key, info), o in zip(cases, obs):
+        ev = {"props": [pred], "rows": o["rows"], "doc": o["doc"], key: info}
+        if pred == "C16tags":
+            ev["clsmap"] = clsmap_of(o["doc"])
+        run.add_event(ev, {"input": t, key: info})
+    run.samples += [{"input": cases[1][0]}, {"input": cases[n + 1][0], "tags": cases[n + 1][3]}]
+    run.validate(shard=800)
+    run.assumptions = std_assumptions() + ["'lying inside' is read as: the tag's cells lie inside the shape's bounding box"]
+    return run.finish()
+
+
+def c18(tier):
+    run = Run("C18", tier)
+    n = 150 if tier == "quick" else 5000
+    run.rule = ("for each input of a mixed corpus (incl. legends and tags) the default conversion is the base event; "
+                "variants: the other entry points with default settings (byte-identical), the compressed form, all 8 "
+                "include_* combinations, random colour/font/font-size/stroke settings, override sizes; TLC checks "
+                "SettingsVariant on the recorded documents (same elements in the same order, same canvas, exactly the "
+                "switched element added/removed, only the style text changed, only root/backdrop size changed). "
+                "every variant event is non-trivial")
+    r = common.rng("C18")
+    cfg = simple_cfg("MC_C18", {}, ["AssembleOrder", "SwitchesIndependent"])
+    run.model("MC_Assemble", cfg)
+    corpus = [t for t in gen.mixed_corpus(r, n) if t.strip()]
+    corpus += [gen.box(8, 1, "sharp", "{a}") + "\n# Legend:\na = {fill:red}\n", "o-->*\n# Legend:\nx={stroke:blue}"]
+    groups = []
+    cols = ["red", "#00ff00", "rgb(1,2,3)", "blue", "none", "x\"y", "it's"]
+    for t in corpus:
+        g = [({"input": t, "want_style": True}, None)]
+        j = 1
+        for entry in ("pretty", "settings"):
+            g.append(({"input": t, "entry": entry, "settings": {}, "want_style": True}, {"kind": "same", "of": j}))
+            j += 1
+        g.append(({"input": t, "entry": "compressed", "want_style": True}, {"kind": "compressed", "of": j}))
+        j += 1
+        combos = [(a, b, c) for a in (1, 0) for b in (1, 0) for c in (1, 0)]
+        if tier == "quick":
+            combos = r.sample(combos, 3)
+        for (a, b, c) in combos:
+            g.append(({"input": t, "entry": "settings", "want_style": True,
+                       "settings": {"include_styles": bool(a), "include_defs": bool(b), "include_backdrop": bool(c)}},
+                      {"kind": "toggle", "of": j, "styles": a, "defs": b, "backdrop": c}))
+            j += 1
+        st = {"fill_color": r.choice(cols), "background": r.choice(cols), "stroke_color": r.choice(cols),
+              "font_family": r.choice(["Arial", "monospace", "Fira Code, monospace"]), "font_size": r.randint(1, 40),
+              "stroke_width": r.choice([0.5, 1.0, 2.0, 3.25])}
+        g.append(({"input": t, "entry": "settings", "settings": st, "want_style": True}, {"kind": "cosmetic", "of": j}))
+        j += 1
+        W, H = float(r.randint(1, 2000)), float(r.randint(1, 2000))
+        g.append(({"input": t, "entry": "override", "settings": {}, "w": W, "h": H, "want_style": True},
+                  {"kind": "override", "of": j, "w": int(W * 1000), "h": int(H * 1000)}))
+        groups.append(g)
+    cases = [c for g in groups for (c, _) in g]
+    obs = observe.observe(cases, tag="C18R")
+    i = 0
+    for g in groups:
+        for (c, rel) in g:
+            o = obs[i]
+            i += 1
+            sha = _hashlib.sha256((o["svg"] or "").encode("utf-8", "surrogatepass")).hexdigest()
+            ev = {"props": ["C18"] if rel else [], "rows": o["rows"], "doc": o["doc"], "sha": sha}
+            if rel:
+                ev["rel"] = rel
+            run.add_event(ev, {"input": c["input"], "entry": c.get("entry", "to_svg"), "settings": c.get("settings"), "rel": rel})
+    run.samples.append({"input": corpus[0], "variants": [g[1] for g in groups[0][1:]]})
+    run.validate(shard=600)
+    run.assumptions = std_assumptions()
+    return run.finish()
+
+
+PLANS.update({"C16": c16, "C18": c18})
